@@ -111,8 +111,10 @@ Inductive val :=
   | VInt (z : Z)
   | VFloat (f : xf)
   | VStr (s : string)
+  | VNumStr (s : string) (f : xf)                        (* a str that float() parses to f *)
   | VEnum (g : gpt)
-  | VArr (k : akind) (shape : list Z) (data : list xf)   (* JAX/NumPy array, row-major *)
+  | VArr (k : akind) (shape : list Z) (data : list xf)   (* JAX array, row-major *)
+  | VNpArr (k : akind) (shape : list Z) (data : list xf) (* numpy.ndarray: NOT an instance of jax.numpy.ndarray *)
   | VTuple (l : list val)
   | VList (l : list val)
   | VDict (l : list (val * val))                        (* insertion ordered *)
@@ -135,8 +137,8 @@ Definition as_num (v : val) : option num :=
   | VFloat f => Some (NF f)
   | VNpScalar KF f => Some (NF f)
   | VNpScalar _ (XFin q) => Some (NZ (Qnum q))
-  | VArr KF [] [f] => Some (NF f)
-  | VArr _ [] [XFin q] => Some (NZ (Qnum q))
+  | VArr KF [] [f] | VNpArr KF [] [f] => Some (NF f)
+  | VArr _ [] [XFin q] | VNpArr _ [] [XFin q] => Some (NZ (Qnum q))
   | _ => None
   end.
 
@@ -156,12 +158,12 @@ Definition num_leb (a b : num) : bool :=
   | _, _ => xf_leb (num_xf a) (num_xf b)
   end.
 
-Definition is_array (v : val) : bool := match v with VArr _ _ _ => true | _ => false end.
+Definition is_array (v : val) : bool := match v with VArr _ _ _ | VNpArr _ _ _ => true | _ => false end.
 
 (* result kind of an elementwise comparison involving at least one array *)
 Definition arr_data (v : val) : option (list Z * list xf) :=
   match v with
-  | VArr _ sh d => Some (sh, d)
+  | VArr _ sh d | VNpArr _ sh d => Some (sh, d)
   | _ => match as_num v with Some n => Some ([], [num_xf n]) | None => None end
   end.
 
@@ -218,7 +220,7 @@ Definition scalar_eqb (a b : val) : bool :=
   | _, _ =>
       match a, b with
       | VNone, VNone => true
-      | VStr s, VStr t => string_eqb s t
+      | VStr s, VStr t | VNumStr s _, VNumStr t _ | VStr s, VNumStr t _ | VNumStr s _, VStr t => string_eqb s t
       | VEnum g, VEnum h => gpt_eqb g h
       | VObj c i, VObj d j => Z.eqb i j
       | _, _ => false
@@ -259,10 +261,10 @@ Definition truthy (v : val) : res bool :=
   | VInt z | VJInt z => Ok (negb (Z.eqb z 0))
   | VFloat f => Ok (xf_truth f)
   | VNpScalar _ f => Ok (xf_truth f)
-  | VStr s => Ok (negb (string_eqb s ""))
+  | VStr s | VNumStr s _ => Ok (negb (string_eqb s ""))
   | VEnum _ => Ok true
-  | VArr _ _ [f] => Ok (xf_truth f)
-  | VArr _ _ _ => Err ValueError    (* truth value of an array with more than one element (or empty: deprecated/False) *)
+  | VArr _ _ [f] | VNpArr _ _ [f] => Ok (xf_truth f)
+  | VArr _ _ _ | VNpArr _ _ _ => Err ValueError    (* truth value of an array with more than one element (or empty: deprecated/False) *)
   | VTuple l | VList l | VSet l => Ok (negb (Nat.eqb (List.length l) 0))
   | VDict l => Ok (negb (Nat.eqb (List.length l) 0))
   | VSlice _ _ _ => Ok true
@@ -288,7 +290,7 @@ Definition py_isinstance1 (v : val) (t : pytype) : bool :=
   | TBool, VBool _ => true
   | TFloat, VFloat _ => true
   | TFloat, VNpScalar KF _ => true           (* numpy.float64 subclasses float *)
-  | TStr, VStr _ => true
+  | TStr, (VStr _ | VNumStr _ _) => true
   | TNone, VNone => true
   | TDict, VDict _ => true
   | TList, VList _ => true
@@ -300,7 +302,7 @@ Definition py_isinstance1 (v : val) (t : pytype) : bool :=
   | TGpType, VEnum _ => true
   | TNpInteger, VNpScalar KI _ => true
   | TNpFloating, VNpScalar KF _ => true
-  | TIterable, (VArr _ _ _ | VJInt _ | VList _ | VTuple _ | VSet _ | VDict _ | VStr _) => true   (* ndarray defines __iter__ even when 0-d *)
+  | TIterable, (VArr _ _ _ | VNpArr _ _ _ | VJInt _ | VList _ | VTuple _ | VSet _ | VDict _ | VStr _ | VNumStr _ _) => true   (* ndarray defines __iter__ even when 0-d *)
   | TClass n, VObj c _ => string_eqb n c
   | _, _ => false
   end.
@@ -312,7 +314,7 @@ Definition py_type_is (v : val) (t : pytype) : res val :=
             | TInt, VInt _ => true
             | TFloat, VFloat _ => true
             | TBool, VBool _ => true
-            | TStr, VStr _ => true
+            | TStr, (VStr _ | VNumStr _ _) => true
             | _, _ => false
             end).
 
@@ -370,9 +372,10 @@ Definition py_float (v : val) : res val :=
   | VInt z | VJInt z => Ok (VFloat (xf_of_Z z))
   | VBool b => Ok (VFloat (xf_of_Z (if b then 1 else 0)))
   | VNpScalar _ f => Ok (VFloat f)
-  | VArr _ _ [f] => Ok (VFloat f)          (* size-1 arrays convert *)
-  | VArr _ _ _ => Err TypeError            (* only size-1 arrays can be converted *)
-  | VStr _ => Err ValueError               (* numeric strings are given explicitly as floats by the harness *)
+  | VArr _ [] [f] | VNpArr _ [] [f] => Ok (VFloat f)         (* 0-d arrays convert *)
+  | VArr _ _ _ | VNpArr _ _ _ => Err TypeError            (* only 0-dimensional arrays can be converted (NumPy >= 2.x, JAX) *)
+  | VNumStr _ f => Ok (VFloat f)
+  | VStr _ => Err ValueError               (* could not convert string to float *)
   | _ => Err TypeError
   end.
 Definition py_int (v : val) : res val :=
@@ -387,14 +390,14 @@ Definition py_int (v : val) : res val :=
 (* ---- arrays ---- *)
 Definition np_isnan (v : val) : res val :=
   match v with
-  | VArr _ sh d => Ok (VArr KB sh (map (fun x => xf_of_bool (xf_isnan x)) d))
+  | VArr _ sh d | VNpArr _ sh d => Ok (VArr KB sh (map (fun x => xf_of_bool (xf_isnan x)) d))
   | _ => match as_num v with
          | Some n => Ok (VBool (xf_isnan (num_xf n)))
          | None => Err TypeError end
   end.
 Definition np_isinf (v : val) : res val :=
   match v with
-  | VArr _ sh d => Ok (VArr KB sh (map (fun x => xf_of_bool (xf_isinf x)) d))
+  | VArr _ sh d | VNpArr _ sh d => Ok (VArr KB sh (map (fun x => xf_of_bool (xf_isinf x)) d))
   | _ => match as_num v with
          | Some n => Ok (VBool (xf_isinf (num_xf n)))
          | None => Err TypeError end
@@ -509,23 +512,26 @@ Definition np_slice_cols (a lo hi st : val) : res val :=
 
 Definition np_shape (v : val) : res val :=
   match v with
-  | VArr _ sh _ => Ok (VTuple (map VInt sh))
+  | VArr _ sh _ | VNpArr _ sh _ => Ok (VTuple (map VInt sh))
+  | VJInt _ => Ok (VTuple [])
   | _ => Err AttributeError
   end.
 Definition np_ndim (v : val) : res val :=
   match v with
-  | VArr _ sh _ => Ok (VInt (Z.of_nat (List.length sh)))
+  | VArr _ sh _ | VNpArr _ sh _ => Ok (VInt (Z.of_nat (List.length sh)))
+  | VJInt _ => Ok (VInt 0)
   | _ => Err AttributeError
   end.
 Definition np_size (v : val) : res val :=
   match v with
-  | VArr _ _ d => Ok (VInt (Z.of_nat (List.length d)))
+  | VArr _ _ d | VNpArr _ _ d => Ok (VInt (Z.of_nat (List.length d)))
+  | VJInt _ => Ok (VInt 1)
   | _ => Err AttributeError
   end.
 Definition py_len (v : val) : res val :=
   match v with
-  | VArr _ (n :: _) _ => Ok (VInt n)
-  | VArr _ [] _ => Err TypeError
+  | VArr _ (n :: _) _ | VNpArr _ (n :: _) _ => Ok (VInt n)
+  | VArr _ [] _ | VNpArr _ [] _ => Err TypeError
   | VList l | VTuple l | VSet l => Ok (VInt (Z.of_nat (List.length l)))
   | VDict l => Ok (VInt (Z.of_nat (List.length l)))
   | VStr s => Ok (VInt (Z.of_nat (String.length s)))
@@ -627,8 +633,9 @@ Fixpoint val_eqb (a b : val) {struct a} : bool :=
   | VJInt x, VJInt y => Z.eqb x y
   | VFloat x, VFloat y => xf_same x y
   | VStr x, VStr y => string_eqb x y
+  | VNumStr x f, VNumStr y g => string_eqb x y && xf_same f g
   | VEnum g, VEnum h => gpt_eqb g h
-  | VArr k s d, VArr k' s' d' => akind_eqb k k' && list_Z_eqb s s' && list_eqb xf_same d d'
+  | VArr k s d, VArr k' s' d' | VNpArr k s d, VNpArr k' s' d' => akind_eqb k k' && list_Z_eqb s s' && list_eqb xf_same d d'
   | VTuple l, VTuple m | VList l, VList m | VSet l, VSet m =>
       (fix go (l m : list val) : bool :=
          match l, m with
@@ -670,8 +677,8 @@ Definition m_todense (v : val) : res val :=
 
 Definition np_isscalar (v : val) : res val :=
   Ok (VBool match v with
-            | VBool _ | VInt _ | VFloat _ | VNpScalar _ _ | VJInt _ | VStr _ => true
-            | VArr _ [] _ => true
+            | VBool _ | VInt _ | VFloat _ | VNpScalar _ _ | VJInt _ | VStr _ | VNumStr _ _ => true
+            | VArr _ [] _ | VNpArr _ [] _ => true
             | _ => false
             end).
 
@@ -682,14 +689,14 @@ Fixpoint all_some {A} (l : list (option A)) : option (list A) :=
   | None :: _ => None
   end.
 Definition num_of_elem (v : val) : option xf :=
-  match v with VStr _ => None | _ => match as_num v with Some n => Some (num_xf n) | None => None end end.
+  match v with VStr _ | VNumStr _ _ => None | _ => match as_num v with Some n => Some (num_xf n) | None => None end end.
 Definition seq_items (v : val) : option (list val) :=
   match v with VList l | VTuple l => Some l | _ => None end.
 
 (* asarray(v, dtype=float) for arrays and for (nested, depth <= 2) sequences of numbers *)
 Definition np_asarray_float (v : val) : res val :=
   match v with
-  | VArr _ sh d => Ok (VArr KF sh d)
+  | VArr _ sh d | VNpArr _ sh d => Ok (VArr KF sh d)
   | VJInt z => Ok (VArr KF [] [xf_of_Z z])
   | VList l | VTuple l =>
       match all_some (map num_of_elem l) with
@@ -711,6 +718,7 @@ Definition np_asarray_float (v : val) : res val :=
           | None => Err ValueError
           end
       end
+  | VNumStr _ f => Ok (VArr KF [] [f])
   | VStr _ => Err ValueError
   | _ => match as_num v with
          | Some n => Ok (VArr KF [] [num_xf n])
@@ -734,7 +742,7 @@ Definition py_any_gen (p : val -> res bool) (it : val) : res bool :=
 (* squeeze: drop all axes of length one *)
 Definition np_squeeze (v : val) : res val :=
   match v with
-  | VArr k sh d => Ok (VArr k (filter (fun s => negb (Z.eqb s 1)) sh) d)
+  | VArr k sh d | VNpArr k sh d => Ok (VArr k (filter (fun s => negb (Z.eqb s 1)) sh) d)
   | _ => match as_num v with Some _ => Ok v | None => Err TypeError end
   end.
 
@@ -745,7 +753,7 @@ Definition np_full (n fill : val) : res val :=
   | Some (NZ z), VArr _ _ _ => Err ValueError              (* cannot broadcast *)
   | Some (NZ z), _ =>
       match fill, as_num fill with
-      | VStr _, _ => Err ValueError
+      | VStr _, _ | VNumStr _ _, _ => Err ValueError
       | _, Some (NZ i) => Ok (VArr KI [z] (repeat (xf_of_Z i) (Z.to_nat z)))
       | _, Some (NF f) => Ok (VArr KF [z] (repeat f (Z.to_nat z)))
       | _, None => Err TypeError
@@ -774,4 +782,84 @@ Definition np_concat_cols (t : val) : res val :=
                          (take_rows (Z.to_nat c2) (Z.to_nat r2) d2))))
       else Err TypeError          (* jax: dimensions must match *)
   | _ => Err TypeError
+  end.
+
+(* ------------------------------------------------------------------ *)
+(* boolean-array operators, masks, where, builtin min over an array *)
+Definition xf_lift2 (f : bool -> bool -> bool) (a b : xf) : xf := xf_of_bool (f (xf_truth a) (xf_truth b)).
+Definition py_or_ (a b : val) : res val :=
+  match a, b with
+  | VBool x, VBool y => Ok (VBool (x || y))
+  | VArr KB _ _, _ | _, VArr KB _ _ => broadcast2 (xf_lift2 orb) KB a b
+  | _, _ => Err TypeError
+  end.
+Definition py_and_ (a b : val) : res val :=
+  match a, b with
+  | VBool x, VBool y => Ok (VBool (x && y))
+  | VArr KB _ _, _ | _, VArr KB _ _ => broadcast2 (xf_lift2 andb) KB a b
+  | _, _ => Err TypeError
+  end.
+Definition py_invert (v : val) : res val :=
+  match v with
+  | VArr KB sh d => Ok (VArr KB sh (map (fun x => xf_of_bool (negb (xf_truth x))) d))
+  | VBool b => Ok (VInt (if b then -2 else -1))
+  | _ => Err TypeError
+  end.
+(* a[mask] for 1-d a and a boolean mask of the same shape *)
+Fixpoint select_mask (d m : list xf) : list xf :=
+  match d, m with
+  | x :: r, b :: t => if xf_truth b then x :: select_mask r t else select_mask r t
+  | _, _ => []
+  end.
+Definition np_mask1 (a m : val) : res val :=
+  match a, m with
+  | VArr k [n] d, VArr KB [n'] md =>
+      if Z.eqb n n' then let r := select_mask d md in Ok (VArr k [Z.of_nat (List.length r)] r) else Err IndexError
+  | _, _ => Err TypeError
+  end.
+(* builtin min(iterable) over a 1-d array: first minimal element by <, NaN-unaware like Python *)
+Definition py_min1 (v : val) : res val :=
+  match v with
+  | VArr k [_] (x :: r) => Ok (VArr k [] [fold_left (fun m y => if xf_ltb y m then y else m) r x])
+  | VArr _ [_] [] => Err ValueError
+  | _ => Err TypeError
+  end.
+(* where(cond, a, b) with cond, a arrays of one shape and b a scalar-like *)
+Definition np_where (c a b : val) : res val :=
+  match c, a, arr_data b with
+  | VArr KB sh cd, VArr k sh2 ad, Some ([], [y]) =>
+      if list_Z_eqb sh sh2 then Ok (VArr k sh (zip_with (fun t x => if xf_truth t then x else y) cd ad))
+      else Err ValueError
+  | _, _, _ => Err TypeError
+  end.
+
+Definition np_expand0 (v : val) : res val :=
+  match v with VArr k sh d => Ok (VArr k (1 :: sh) d) | _ => Err TypeError end.
+(* a[i] extended with boolean-mask indexing *)
+Definition py_getitem2 (a i : val) : res val :=
+  match a, i with
+  | VArr _ [_] _, VArr KB _ _ => np_mask1 a i
+  | _, _ => py_getitem a i
+  end.
+
+(* transpose (rank <= 2) and atleast_2d *)
+Definition transpose2 {A} (r c : nat) (d : list A) (dflt : A) : list A :=
+  flat_map (fun j => map (fun i => nth (i * c + j) d dflt) (seq 0 r)) (seq 0 c).
+Definition np_T (v : val) : res val :=
+  match v with
+  | VArr k [r; c] d => Ok (VArr k [c; r] (transpose2 (Z.to_nat r) (Z.to_nat c) d XNaN))
+  | VNpArr k [r; c] d => Ok (VNpArr k [c; r] (transpose2 (Z.to_nat r) (Z.to_nat c) d XNaN))
+  | VArr k [n] d | VNpArr k [n] d => Ok v
+  | VArr k [] d | VNpArr k [] d => Ok v
+  | VJInt _ => Ok v
+  | VArr _ _ _ => Err OtherError
+  | _ => Err AttributeError
+  end.
+Definition np_atleast_2d (v : val) : res val :=
+  match v with
+  | VArr k [] d | VNpArr k [] d => Ok (VArr k [1; 1] d)
+  | VArr k [n] d | VNpArr k [n] d => Ok (VArr k [1; n] d)
+  | VArr _ _ _ => Ok v
+  | VNpArr k sh d => Ok (VArr k sh d)
+  | _ => match as_num v with Some n => Ok (VArr (match n with NZ _ => KI | NF _ => KF end) [1; 1] [num_xf n]) | None => Err TypeError end
   end.
